@@ -79,6 +79,11 @@ func c08MakeUse(r *gen.Rand, spec gen.MsgSpec, rest *[]byte) c08Use {
 	case 1:
 		return c08Use{"Write", func(m *stun.Message) error { _, err := m.Write(data); return err }, scribbleData}
 	case 2:
+		if r.Bool() {
+			// the gob entry point of the same operation (a decoder or framing layer that recycles its buffer hands it over)
+			return c08Use{"GobDecode", func(m *stun.Message) error { return m.GobDecode(data) }, scribbleData}
+		}
+
 		return c08Use{"UnmarshalBinary", func(m *stun.Message) error { return m.UnmarshalBinary(data) }, scribbleData}
 	case 3:
 		return c08Use{"ReadFrom", func(m *stun.Message) error {
